@@ -214,6 +214,11 @@ func runC12(ctx *core.Ctx, idx int) *core.Result {
 			if r.Intn(2) == 0 {
 				src, layout = uglify(src, 8) // byte order mark
 			}
+		case 7:
+			if pi == 0 && r.Intn(2) == 0 {
+				// the whole file on one line: the rewritten file shares no line with it
+				src, layout = "package p; func oneLiner() int { return bump(1) }\n", "one-line-file"
+			}
 		}
 		if layout != "unparseable" && !gen.Parses(src) {
 			src, layout = g.File(gen.FileOpts{Plants: plants}), "gofmt-like"
@@ -411,6 +416,8 @@ func runC12(ctx *core.Ctx, idx int) *core.Result {
 			switch {
 			case f.layout == "line-over-64k" && strings.Contains(string(c3.Stderr), "token too long"):
 				cls = "diff-mode/line-too-long"
+			case f.layout == "one-line-file":
+				cls = "diff-mode/no-common-line"
 			case strings.Contains(orig[n], "\r\n"):
 				cls = "diff-mode/crlf-input"
 			case !strings.HasSuffix(orig[n], "\n"):
